@@ -521,6 +521,18 @@ def r3(ctx, recomputers, floor=2):
             continue
         A, K = pa['A'], pa['K']
         o = (pa['ccF'], pa['piecesF'])
+        # the scan runs on every path: it may be skipped only when the attacker set it would walk is empty
+        skipped = False
+        for blk_, cond_, tv_ in bypass_decisions(s, loop['header']):
+            c_ = bb(cond_) if cond_ is not None else None
+            if c_ is not None and tv_ is not None and c_[0] in ('bbeq', 'bbne') and ('bb0',) in c_[1:] and X in c_[1:] and ((c_[0] == 'bbeq') == tv_):
+                ctx.ok(R, '%s: the scan is skipped only when its attacker set is empty' % key, w)
+                continue
+            skipped = True
+            ctx.violation(R, key + ':scan-skipped', '%s can return without running the slider scan (deciding condition: %s is %s): slider checks and '
+                          'pins are not recorded on that path' % (key, sh(c_, 120) if c_ is not None else 'not found', tv_), w)
+        if not skipped:
+            ctx.ok(R, '%s: every path to a return runs the slider scan' % key, w)
         ctx.ok(R, '%s: attackers = cc(A) & ((bishop_rays(k) & (B|Q)) | (rook_rays(k) & (R|Q)))' % key, w)
         # every attacker is examined: the only way out of the scan is the exhaustion of the attacker set (a pin found
         # after the second checker is still a pin)
